@@ -81,16 +81,19 @@ Proof. intros [H1 [[H2 _]|[_ H2]]]; [auto|discriminate]. Qed.
 Lemma client_closed Δ n t : client_ty Δ ∅ None n t ->
   is_self n = false /\ exists c t', chan n = Some c /\ Δ !! c = Some t' /\ teq t' t.
 Proof.
-  intros [H1 H2]. split; auto. destruct (chan n) as [c|].
+  intros [H1 [_ H2]]. split; auto. destruct (chan n) as [c|].
   - destruct H2 as [t' [H2 H3]]. eauto.
   - destruct H2 as [_ [t' [H2 _]]]. rewrite lookup_empty in H2. discriminate.
 Qed.
 
+Lemma client_ann Δ Γ sh n t : client_ty Δ Γ sh n t -> ann_ok teq n t.
+Proof. intros [_ [H _]]. exact H. Qed.
+
 Lemma client_ty_conv Δ Γ sh n t t' : client_ty Δ Γ sh n t -> teq t t' -> client_ty Δ Γ sh n t'.
 Proof.
-  intros [H1 H2] Ht. split; auto. destruct (chan n).
-  - destruct H2 as [t0 [H2 H3]]. eauto.
-  - destruct H2 as [H2 [t0 [H3 H4]]]. eauto.
+  intros [H1 [[t0 [Ha1 [Ha2 Ha3]]] H2]] Ht. split; auto. split; [exists t0; eauto|]. destruct (chan n).
+  - destruct H2 as [t1 [H2 H3]]. eauto.
+  - destruct H2 as [H2 [t1 [H3 H4]]]. eauto.
 Qed.
 Lemma prov_ty_conv Δ n t t' : prov_ty Δ n t -> teq t t' -> prov_ty Δ n t'.
 Proof. intros [c [t0 [H1 [H2 H3]]]] Ht. exists c, t0. eauto. Qed.
@@ -177,7 +180,7 @@ Lemma call_typed Δ rs s fn args pt :
   typed Δ ∅ None rs s (FCall fn args pt) ->
   exists b s' rs', call_body F fn args = Some b /\ teq s' s /\ typed Δ ∅ None rs' s' b.
 Proof.
-  intros H. inversion H as [| | | | | | | | | | | |Γ sh rs0 s0 fn0 args0 pt0 fd tf Hg Hft Ht Hargs| | | | |]; subst.
+  intros H. inversion H as [| | | | | | | | | | | | |Γ sh rs0 s0 fn0 args0 pt0 fd tf Hg Hft Ht Hargs| | | | |]; subst.
   pose proof (get_function_In _ _ _ _ Hg) as Hin.
   pose proof HF as HF'. unfold funs_typed in HF'. rewrite Forall_forall in HF'. specialize (HF' fd Hin).
   destruct HF' as [tf' [Hft' [Hb [Hnd [Hnt Hbody]]]]]. rewrite Hft in Hft'. injection Hft' as <-.
@@ -209,11 +212,211 @@ Proof.
       apply sub_all_typed; auto.
 Qed.
 
+(* the channel identifiers the process may still allocate are unused *)
+Definition ns_free (Δ : gmap cid sty) (self : pid) (p : proc) : Prop :=
+  forall j, (pr_next p <= j)%nat -> Δ !! (self ++ [j]) = None.
+
+(* ------------------------------------------------------------------ free names (what a GC request propagates to) *)
+Lemma in_append_if_not_self n x l :
+  In n (append_if_not_self x l) -> In n l \/ (n = x /\ is_self x = false).
+Proof.
+  unfold append_if_not_self. destruct (is_self x) eqn:E; auto.
+  intros H. apply in_app_or in H. destruct H as [H|[<-|[]]]; auto.
+Qed.
+
+Lemma in_merge_names n : forall b a, In n (merge_names a b) -> In n a \/ In n b.
+Proof.
+  induction b as [|x b IH]; intros a; simpl; auto.
+  intros H. apply IH in H. destruct H as [H|H]; auto.
+  destruct (name_exists a x); auto. apply in_app_or in H. destruct H as [H|[<-|[]]]; auto.
+Qed.
+
+Lemma in_remove_bound n l b : In n (remove_bound l b) -> In n l /\ name_equal n b = false.
+Proof.
+  unfold remove_bound. intros H. apply filter_In in H. destruct H as [H1 H2]. split; auto.
+  destruct (name_equal n b); try discriminate; auto.
+Qed.
+
+Lemma in_fold_append n : forall args acc,
+  In n (fold_left (fun acc x => append_if_not_self x acc) args acc) ->
+  In n acc \/ (In n args /\ is_self n = false).
+Proof.
+  induction args as [|x args IH]; intros acc; simpl; auto.
+  intros H. apply IH in H. destruct H as [H|[H1 H2]]; [|auto].
+  apply in_append_if_not_self in H. destruct H as [H|[-> H]]; auto.
+Qed.
+
+(* a free name is a client occurrence, or the identifier that names the provider *)
+Definition free_ok (Δ : gmap cid sty) (Γ : gmap string sty) (sh : option string) (n : name) : Prop :=
+  (is_self n = false /\ chan n = None /\ sh = Some (ident n)) \/ exists t, client_ty Δ Γ sh n t.
+
+Lemma free_ok_resh Δ Γ sh sh' n t : client_ty Δ Γ sh' n t -> free_ok Δ Γ sh n.
+Proof.
+  intros [H1 [Ha H2]]. destruct (chan n) as [c|] eqn:Ec.
+  - right. exists t. split; auto. split; auto. rewrite Ec. auto.
+  - destruct (decide (sh = Some (ident n))) as [E|E]; [left; auto|].
+    right. exists t. split; auto. split; auto. rewrite Ec. destruct H2 as [_ H2]. auto.
+Qed.
+
+Lemma prov_free_ok Δ Γ sh rs n : prov_name sh rs n -> is_self n = false -> free_ok Δ Γ sh n.
+Proof. intros [H1 [[H2 _]|[_ H2]]] H3; [congruence|]. left. auto. Qed.
+
+Lemma client_unbind Δ Γ sh x A b n t :
+  chan b = None -> ident b = x -> name_equal n b = false ->
+  client_ty Δ (<[x := A]> Γ) sh n t -> client_ty Δ Γ sh n t.
+Proof.
+  intros Hb Hx Hne [H1 [Ha H2]]. split; auto. split; auto.
+  destruct (chan n) as [c|] eqn:Ec; auto.
+  destruct H2 as [H2 [t' [H3 H4]]]. split; auto. exists t'. split; auto.
+  rewrite lookup_insert_ne in H3; auto. intros E.
+  unfold name_equal, initialized in Hne. rewrite Ec, Hb in Hne. simpl in Hne.
+  rewrite <- E, Hx, String.eqb_refl in Hne. discriminate.
+Qed.
+
+Lemma free_unbind Δ Γ sh x A b n :
+  chan b = None -> ident b = x -> name_equal n b = false ->
+  free_ok Δ (<[x := A]> Γ) sh n -> free_ok Δ Γ sh n.
+Proof.
+  intros Hb Hx Hne [H|[t H]]; [left; auto|]. right. exists t. eapply client_unbind; eauto.
+Qed.
+
+(* the provider was named `b` inside: outside, that name is bound *)
+Lemma free_unshadow Δ Γ sh b n :
+  chan b = None -> name_equal n b = false -> free_ok Δ Γ (Some (ident b)) n -> free_ok Δ Γ sh n.
+Proof.
+  intros Hb Hne [[H1 [H2 H3]]|[t H]].
+  - exfalso. injection H3 as H3. unfold name_equal, initialized in Hne. rewrite H2, Hb in Hne. simpl in Hne.
+    rewrite H3, String.eqb_refl in Hne. discriminate.
+  - eapply free_ok_resh; eauto.
+Qed.
+
+Lemma free_names_typed_mut Δ :
+  (forall Γ sh rs s f, typed Δ Γ sh rs s f -> forall n, In n (free_names f) -> free_ok Δ Γ sh n) /\
+  (forall Γ rs bs b, typed_brs_p Δ Γ rs bs b ->
+     forall sh acc n, In n (free_names_brs acc b) -> In n acc \/ free_ok Δ Γ sh n) /\
+  (forall Γ sh rs s bs b, typed_brs_c Δ Γ sh rs s bs b ->
+     forall acc n, In n (free_names_brs acc b) -> In n acc \/ free_ok Δ Γ sh n).
+Proof.
+  assert (Hbc : forall b, binder b -> chan b = None) by (intros b [H _]; exact H).
+  apply typed_mutind; intros; simpl in *;
+    repeat match goal with
+           | H : In _ (merge_names _ _) |- _ => apply in_merge_names in H; destruct H as [H|H]
+           | H : In _ (append_if_not_self _ _) |- _ => apply in_append_if_not_self in H; destruct H as [H|[-> H]]
+           | H : In _ (remove_bound _ _) |- _ => apply in_remove_bound in H; destruct H as [H ?]
+           | H : In _ [] |- _ => destruct H
+           end;
+    try (eapply prov_free_ok; eauto; fail);
+    try (right; eauto; fail);
+    try (eapply free_ok_resh; eauto; fail).
+  - (* RecvP *)
+    match goal with IH : forall n, In n (free_names k) -> _, Hin : In _ (free_names k) |- _ => apply IH in Hin end.
+    eapply (free_unshadow _ _ _ cont); eauto.
+    eapply (free_unbind _ _ _ _ _ pay); eauto.
+  - (* RecvC *)
+    match goal with IH : forall n, In n (free_names k) -> _, Hin : In _ (free_names k) |- _ => apply IH in Hin end.
+    eapply (free_unbind _ _ _ _ _ pay); eauto. eapply (free_unbind _ _ _ _ _ cont); eauto.
+  - (* CaseP *)
+    match goal with IH : forall sh acc n, In n (free_names_brs acc b) -> _, Hin : In _ (free_names_brs _ b) |- _ =>
+      apply (IH sh) in Hin; destruct Hin as [Hin|Hin]; auto;
+      apply in_append_if_not_self in Hin; destruct Hin as [[]|[-> Hin]]; eapply prov_free_ok; eauto end.
+  - (* CaseC *)
+    match goal with IH : forall acc n, In n (free_names_brs acc b) -> _, Hin : In _ (free_names_brs _ b) |- _ =>
+      apply IH in Hin; destruct Hin as [Hin|Hin]; auto;
+      apply in_append_if_not_self in Hin; destruct Hin as [[]|[-> Hin]]; right; eauto end.
+  - (* New: body *)
+    match goal with IH : forall n, In n (free_names body) -> _, Hin : In _ (free_names body) |- _ => apply IH in Hin end.
+    match goal with Hf : free_ok _ _ None _ |- _ => destruct Hf as [[_ [_ E]]|[t Ht]]; [discriminate|] end.
+    eapply free_ok_resh; eauto.
+  - (* New: continuation *)
+    match goal with IH : forall n, In n (free_names k) -> _, Hin : In _ (free_names k) |- _ => apply IH in Hin end.
+    eapply (free_unbind _ _ _ _ _ x); eauto.
+  - (* Wait *) eauto.
+  - (* Drop *) eauto.
+  - (* Call *)
+    match goal with Hin : In _ (fold_left _ _ _) |- _ =>
+      apply in_fold_append in Hin; destruct Hin as [[]|[Hin Hs]]; rename Hin into Hargs_in end.
+    match goal with H : _ \/ _ |- _ => destruct H as [[? Ha]|[a0 [rest [-> [? [Hp Ha]]]]]] end.
+    + clear -Ha Hargs_in. induction Ha as [|a p args ps [t [H1 H2]] Ha IH]; [destruct Hargs_in|].
+      destruct Hargs_in as [<-|Hin]; [right; eauto|auto].
+    + destruct Hargs_in as [<-|Hin]; [eapply prov_free_ok; eauto|].
+      clear -Ha Hin. induction Ha as [|a p args ps [t [H1 H2]] Ha IH]; [destruct Hin|].
+      destruct Hin as [<-|Hin]; [right; eauto|auto].
+  - (* ShiftP *)
+    match goal with IH : forall n, In n (free_names k) -> _, Hin : In _ (free_names k) |- _ => apply IH in Hin end.
+    eapply (free_unshadow _ _ _ x); eauto.
+  - (* ShiftC *)
+    match goal with IH : forall n, In n (free_names k) -> _, Hin : In _ (free_names k) |- _ => apply IH in Hin end.
+    eapply (free_unbind _ _ _ _ _ x); eauto.
+  - (* Print *) eauto.
+  - (* brs_p nil *) auto.
+  - (* brs_p cons *)
+    match goal with IH : forall sh acc n, In n (free_names_brs acc r) -> _, Hin : In _ (free_names_brs _ r) |- _ =>
+      apply (IH sh) in Hin; destruct Hin as [Hin|Hin]; auto;
+      apply in_merge_names in Hin; destruct Hin as [Hin|Hin]; auto;
+      apply in_remove_bound in Hin; destruct Hin as [Hin Hne]; right;
+      match goal with IH2 : forall n, In n (free_names k) -> _ |- _ => apply IH2 in Hin end;
+      eapply (free_unshadow _ _ _ pay); eauto end.
+  - (* brs_c nil *) auto.
+  - (* brs_c cons *)
+    match goal with IH : forall acc n, In n (free_names_brs acc r) -> _, Hin : In _ (free_names_brs _ r) |- _ =>
+      apply IH in Hin; destruct Hin as [Hin|Hin]; auto;
+      apply in_merge_names in Hin; destruct Hin as [Hin|Hin]; auto;
+      apply in_remove_bound in Hin; destruct Hin as [Hin Hne]; right;
+      match goal with IH2 : forall n, In n (free_names k) -> _ |- _ => apply IH2 in Hin end;
+      eapply (free_unbind _ _ _ _ _ pay); eauto end.
+Qed.
+
+Lemma free_names_closed Δ rs s f n : typed Δ ∅ None rs s f -> In n (free_names f) -> exists t, chan_ty Δ n t.
+Proof.
+  intros Hty Hin. destruct (proj1 (free_names_typed_mut Δ) _ _ _ _ _ Hty n Hin) as [[_ [_ E]]|H]; [discriminate|auto].
+Qed.
+
+(* ------------------------------------------------------------------ droppable forwards (drop, GC) *)
+Lemma droppable_fwds_typed self : forall clients Δ p,
+  (forall n, In n clients -> exists t, chan_ty Δ n t) -> ns_free Δ self p ->
+  exists Δ' ss cs p', droppable_fwds self p clients = (ss, cs, p') /\
+    Δ ⊆ Δ' /\
+    (forall k, is_Some (Δ' !! k) -> is_Some (Δ !! k) \/ k ∈ cs) /\
+    (forall k, k ∈ cs -> exists j, k = self ++ [j] /\ (pr_next p <= j < pr_next p + length clients)%nat) /\
+    length cs = length clients /\
+    pr_next p' = (pr_next p + length clients)%nat /\ pr_provs p' = pr_provs p /\ pr_body0 p' = pr_body0 p /\
+    Forall (fun s => proc_typed Δ' (Proc (sp_provs s) (sp_body s) 0)) ss.
+Proof.
+  induction clients as [|cl r IH]; intros Δ p Hcl Hfree; simpl.
+  - exists Δ, [], [], p. split; auto. split; auto. split; auto.
+    split; [intros k Hk; apply elem_of_nil in Hk; contradiction|]. repeat split; auto; lia.
+  - destruct (Hcl cl (or_introl eq_refl)) as [t Ht].
+    unfold droppable_fwd, fresh_chan. simpl.
+    set (k := self ++ [pr_next p]).
+    set (p1 := Proc (pr_provs p) (pr_body0 p) (S (pr_next p))).
+    assert (Hk : Δ !! k = None) by (apply Hfree; lia).
+    assert (Hsub : Δ ⊆ <[k := t]> Δ) by (apply insert_subseteq; auto).
+    destruct (IH (<[k := t]> Δ) p1) as [Δ' [ss [cs [p' [E [Hs' [Hdom [Hnew [Hlen [Hn [Hpv [Hbd Hsp]]]]]]]]]]]].
+    + intros n Hn. destruct (Hcl n (or_intror Hn)) as [t' Ht']. exists t'. eapply client_ty_weaken; eauto.
+    + intros j Hj. simpl in Hj. rewrite lookup_insert_ne; [apply Hfree; lia|].
+      unfold k. intros E. apply app_inv_head in E. injection E as E. lia.
+    + rewrite E. eexists Δ', _, _, p'. split; [reflexivity|].
+      split; [etrans; eauto|].
+      split. { intros k' Hk'. apply Hdom in Hk'. destruct Hk' as [Hk'|Hk']; [|right; set_solver].
+               destruct (decide (k = k')) as [<-|Hne]; [right; set_solver|]. rewrite lookup_insert_ne in Hk' by auto. auto. }
+      split. { intros k' Hk'. apply elem_of_cons in Hk'. destruct Hk' as [->|Hk'].
+               - exists (pr_next p). split; auto. lia.
+               - destruct (Hnew k' Hk') as [j [Hj1 Hj2]]. exists j. split; auto. simpl in Hj2. lia. }
+      split; [simpl; lia|]. split; [rewrite Hn; simpl; lia|]. split; auto. split; auto.
+      constructor; auto. simpl.
+      eapply proc_typed_weaken; eauto.
+      eexists _, t, {[ ident cl ]}. split; [reflexivity|]. split.
+      * exists k, t. simpl. rewrite lookup_insert. auto.
+      * simpl. eapply T_Fwd.
+        -- split; auto. left. simpl. split; auto. set_solver.
+        -- eapply client_ty_weaken; eauto.
+Qed.
+
 (* ------------------------------------------------------------------ effects of the fragment *)
 Lemma eff_typed_cont Δ self p p' cl o :
   pr_next p' = pr_next p -> proc_typed Δ p' -> eff_typed Δ Δ self p (Eff (Continue p') [] [] cl o).
 Proof.
-  intros Hn Hp. exists p'. simpl. split; auto. split; auto. split; auto.
+  intros Hn Hp. unfold eff_typed, eff_base. simpl. split; auto. split; auto.
   split; [intros k Hk; apply elem_of_nil in Hk; contradiction|]. split; [lia|]. split; auto.
 Qed.
 
@@ -232,10 +435,11 @@ Inductive act_view (Δ : gmap cid sty) (p : proc) : action -> Prop :=
 | AV_send k m : msg_typed Δ k m -> send_side p k m -> act_view Δ p (ASend k m)
 | AV_recv k :
     is_Some (Δ !! k) -> recv_side Δ p k ->
-    (forall self m, msg_typed Δ k m -> exists e, on_message self p m = EOk e /\ eff_typed Δ Δ self p e) ->
+    (forall self m, ns_free Δ self p -> msg_typed Δ k m ->
+       exists e Δ', on_message self p m = EOk e /\ eff_typed Δ Δ' self p e) ->
     act_view Δ p (ARecv k)
 | AV_internal :
-    (forall self, Δ !! (self ++ [pr_next p]) = None ->
+    (forall self, ns_free Δ self p ->
        exists e Δ', internal_effect Async F self p = EOk e /\ eff_typed Δ Δ' self p e) ->
     act_view Δ p AInternal.
 
@@ -243,6 +447,55 @@ Lemma pol_from_head Tk X u pl : teq Tk X -> whd X u -> polarity_of u = Ok pl -> 
 Proof.
   intros Ht Hu Hp. destruct (teq_head D teq Hteq X Tk u (teq_s _ _ Ht) Hu) as [v [Hv Hrel]].
   exists v. split; auto. apply head_rel_pol in Hrel. congruence.
+Qed.
+
+Lemma pol_unique T : pol_of_ty D T Pos -> pol_of_ty D T Neg -> False.
+Proof.
+  intros [u [Hu Hp]] [v [Hv Hn]]. rewrite (whd_det D _ _ _ Hu Hv) in Hp. congruence.
+Qed.
+
+Lemma msg_pol Δ k m : msg_typed Δ k m ->
+  exists T, Δ !! k = Some T /\ pol_of_ty D T (if is_pos_rule (m_rule m) then Pos else Neg).
+Proof.
+  intros [T [HT H]]. exists T. split; auto.
+  destruct (m_rule m); simpl;
+    repeat match goal with
+           | H : exists _, _ |- _ => destruct H
+           | H : _ /\ _ |- _ => destruct H
+           | H : False |- _ => contradiction
+           end; auto;
+    eexists; (split; [eassumption|reflexivity]).
+Qed.
+
+(* the channels a positive message carries *)
+Definition payload (m : msg) : list name :=
+  (if initialized (m_c1 m) then [m_c1 m] else []) ++ (if initialized (m_c2 m) then [m_c2 m] else []).
+
+Lemma payload_clients Δ k m : msg_typed Δ k m -> is_pos_rule (m_rule m) = true ->
+  forall x, In x (payload m) -> exists t, chan_ty Δ x t.
+Proof.
+  intros [T [HT H]] Hpos x. unfold payload, initialized.
+  destruct (m_rule m); simpl in Hpos; try discriminate;
+    repeat match goal with
+           | H : exists _, _ |- _ => destruct H
+           | H : _ /\ _ |- _ => destruct H
+           end;
+    repeat match goal with
+           | H : RtTyping.chan_ty _ _ ?n _ |- _ =>
+             let Hc := fresh "Hc" in
+             pose proof (client_closed _ _ _ H) as [_ [? [? [Hc _]]]]; rewrite Hc; clear Hc;
+             generalize dependent H
+           | H : chan ?n = None |- _ => rewrite H; clear H
+           end; intros; simpl in *;
+    repeat match goal with H : _ \/ _ |- _ => destruct H end; subst; try contradiction; eauto.
+Qed.
+
+Lemma on_message_gc self p m : m_rule m = RGC -> body_is_fwd (pr_body0 p) = false ->
+  on_message self p m =
+  let '(ss, cs, _) := droppable_fwds self p (free_names (pr_body0 p)) in EOk (Eff Finish ss cs [] []).
+Proof.
+  intros Hr Hb. unfold on_message. rewrite Hr. simpl.
+  destruct (pr_body0 p); simpl in *; try reflexivity. discriminate.
 Qed.
 
 Section Act.
@@ -283,10 +536,12 @@ Ltac break :=
    whose kind does not fit u is impossible *)
 Ltac msg_cases Hk HX Hu :=
   let Tk' := fresh "Tk'" in let HTk' := fresh "HTk'" in let Hm := fresh "Hm" in
-  intros self m [Tk' [HTk' Hm]];
+  intros self m Hfree [Tk' [HTk' Hm]];
   rewrite Hk in HTk'; injection HTk' as <-;
-  unfold on_message; simpl;
-  destruct (m_rule m) eqn:Er; simpl;
+  destruct (rule_eqb (m_rule m) RGC) eqn:Egc;
+  [apply rule_eqb_eq in Egc; rewrite Egc in Hm | ];
+  [ | unfold on_message; simpl;
+  destruct (m_rule m) eqn:Er; simpl; try discriminate Egc;
   repeat match goal with
          | H : is_self ?x = _ |- context [is_self ?x] => rewrite H
          end; simpl; break;
@@ -302,7 +557,21 @@ Ltac msg_cases Hk HX Hu :=
         destruct Hp as [v [Hv Hpol]];
         pose proof (head_of _ _ _ _ HX Hv Hu) as Hrel;
         try (apply head_rel_pol in Hrel; rewrite Hpol in Hrel; simpl in Hrel; discriminate)
-      end.
+      end ].
+
+(* a GC request reaches a provider: it asks everything it depends on to drop itself, and ends *)
+Lemma gc_own self s rs b m :
+  teq T0 s -> typed Δ ∅ None rs s b -> body_is_fwd b = false -> m_rule m = RGC -> ns_free Δ self (P b) ->
+  exists e Δ', on_message self (P b) m = EOk e /\ eff_typed Δ Δ' self (P b) e.
+Proof.
+  intros Hs Hb Hnf Hr Hfree. rewrite on_message_gc by auto. simpl.
+  destruct (droppable_fwds_typed self (free_names b) Δ (P b)) as [Δ' [ss [cs [p' [E [Hsub [Hdom [Hnew [Hlen [Hn [Hpv [Hbd Hsp]]]]]]]]]]]]; auto.
+  { intros x Hx. eapply free_names_closed; eauto. }
+  rewrite E. exists (Eff Finish ss cs [] []), Δ'. split; auto.
+  unfold eff_typed, eff_base. simpl. split; auto. split; auto.
+  split. { intros k Hk. destruct (Hnew k Hk) as [j [Hj1 Hj2]]. exists j. split; auto. simpl in Hj2. lia. }
+  split; auto.
+Qed.
 
 (* the process adopts the providers of a negative forward *)
 Lemma fwd_request_ok self s rs b m :
@@ -349,14 +618,15 @@ Proof.
   intros Hs Hfrom Hw Hbp Hbc Hne Hk Hty. apply prov_closed in Hfrom. destruct Hfrom as [Hf1 Hf2].
   compute_action. apply AV_recv; [eauto | exists T0; split; [exact HT0|left; split; [apply own_k0|eapply pol_from_head; eauto; reflexivity]] | ].
   msg_cases HT0 Hs Hw.
+  - (* RGC *) eapply gc_own; eauto.
   - (* RRCV *) destruct Hrel as [Ha Hb].
-    eexists. split; [reflexivity|]. apply eff_typed_cont; auto. simpl.
+    eexists. exists Δ. split; [reflexivity|]. apply eff_typed_cont; auto. simpl.
     match goal with Hp : RtTyping.prov_ty _ _ (m_c2 m) _ |- _ =>
       destruct (prov_ty_conv _ _ _ _ Hp Hb) as [c2 [t2 [Hc2 [Ht2 Hq2]]]] end.
     exists (m_c2 m), B, (rs ∖ {[ident pay]} ∖ {[ident cont]} ∪ {[""]}). split; auto. split; [exists c2, t2; auto|]. simpl.
     apply tshadow; [apply Hbc | apply lookup_empty | ].
     apply (tsubst _ _ _ _ _ _ _ _ A); [apply Hbp | eapply chan_ty_is_chan; eauto | congruence | set_solver | exact Hk].
-  - (* RFWD *) eexists. split; [reflexivity|]. eapply fwd_request_ok; eauto.
+  - (* RFWD *) eexists. exists Δ. split; [reflexivity|]. eapply fwd_request_ok; eauto.
 Qed.
 
 Lemma act_RecvC s rs pay cont from k T A B md :
@@ -369,8 +639,9 @@ Proof.
   destruct (client_closed _ _ _ Hfrom) as [Hf1 [c [t [Hf2 [Hf3 Hf4]]]]].
   compute_action. apply AV_recv; [eauto | eexists; split; [eassumption|right; split; [in_body|eapply pol_from_head; eauto; reflexivity]] | ].
   msg_cases Hf3 Hf4 Hw.
+  { exfalso. eapply pol_unique; [eapply pol_from_head; eauto; reflexivity | exact Hm]. }
   (* RSND *) destruct Hrel as [Ha Hb].
-  eexists. split; [reflexivity|]. apply eff_typed_cont; auto. simpl.
+  eexists. exists Δ. split; [reflexivity|]. apply eff_typed_cont; auto. simpl.
   apply (self_typed s (rs ∖ {[ident pay]} ∖ {[ident cont]})); [exact Hs|].
   apply (tsubst _ _ _ _ _ _ _ _ B); [apply Hbc | eapply chan_ty_is_chan; eauto | discriminate | set_solver | ].
   apply (tsubst _ _ _ _ _ _ _ _ A); [apply Hbp | eapply chan_ty_is_chan; eauto | discriminate | set_solver | ].
@@ -387,7 +658,7 @@ Proof.
   pose proof (teq_head D teq Hteq s T0 _ (teq_s _ _ Hs) Hw) as [v [Hv Hrel]].
   destruct v; simpl in Hrel; try contradiction.
   destruct (brs_rel_find _ _ _ _ _ Hrel Hl) as [A' [HA' Hteq']].
-  eexists _, _, A'. split; [exact Hv|]. split; [exact HA'|]. eapply client_ty_conv; eauto.
+  eexists _, _, A'. split; [exact Hv|]. split; [exact HA'|]. split; [eapply client_ty_conv; eauto|reflexivity].
 Qed.
 
 Lemma act_SelC s rs to l cont T bs md A :
@@ -414,18 +685,19 @@ Proof.
   intros Hs Hfrom Hw Hcov Hb Hty. apply prov_closed in Hfrom. destruct Hfrom as [Hf1 Hf2].
   compute_action. apply AV_recv; [eauto | exists T0; split; [exact HT0|left; split; [apply own_k0|eapply pol_from_head; eauto; reflexivity]] | ].
   msg_cases HT0 Hs Hw.
+  - (* RGC *) eapply gc_own; eauto.
   - (* RBRA *)
     match goal with Hf : find_br (m_label m) _ = Some _ |- _ =>
       destruct (brs_rel_find _ _ _ _ _ Hrel Hf) as [A' [HA' Hteq']] end.
     destruct (find_branch (m_label m) b) as [[pay k]|] eqn:Efb; [|exfalso; eapply Hcov; eauto].
     destruct (typed_brs_p_find _ _ _ _ _ _ _ _ Hb Efb) as [A2 [HA2 [Hbd [Hfr Hk]]]].
     rewrite HA' in HA2. injection HA2 as <-.
-    eexists. split; [reflexivity|]. apply eff_typed_cont; auto. simpl.
+    eexists. exists Δ. split; [reflexivity|]. apply eff_typed_cont; auto. simpl.
     match goal with Hp : RtTyping.prov_ty _ _ (m_c1 m) _ |- _ =>
       destruct (prov_ty_conv _ _ _ _ Hp Hteq') as [c1 [t1 [Hc1 [Ht1 Hq1]]]] end.
     exists (m_c1 m), A', (rs ∖ {[ident pay]} ∪ {[""]}). split; auto. split; [exists c1, t1; auto|]. simpl.
     apply tshadow; [apply Hbd | exact Hfr | exact Hk].
-  - (* RFWD *) eexists. split; [reflexivity|]. eapply fwd_request_ok; eauto.
+  - (* RFWD *) eexists. exists Δ. split; [reflexivity|]. eapply fwd_request_ok; eauto.
 Qed.
 
 Lemma act_CaseC s rs from b T bs md :
@@ -437,13 +709,14 @@ Proof.
   destruct (client_closed _ _ _ Hfrom) as [Hf1 [c [t [Hf2 [Hf3 Hf4]]]]].
   compute_action. apply AV_recv; [eauto | eexists; split; [eassumption|right; split; [in_body|eapply pol_from_head; eauto; reflexivity]] | ].
   msg_cases Hf3 Hf4 Hw.
+  { exfalso. eapply pol_unique; [eapply pol_from_head; eauto; reflexivity | exact Hm]. }
   (* RSEL *)
   match goal with Hf : find_br (m_label m) _ = Some _ |- _ =>
     destruct (brs_rel_find _ _ _ _ _ Hrel Hf) as [A' [HA' Hteq']] end.
   destruct (find_branch (m_label m) b) as [[pay k]|] eqn:Efb; [|exfalso; eapply Hcov; eauto].
   destruct (typed_brs_c_find _ _ _ _ _ _ _ _ _ _ Hb Efb) as [A2 [HA2 [Hbd [Hsh Hk]]]].
   rewrite HA' in HA2. injection HA2 as <-.
-  eexists. split; [reflexivity|]. apply eff_typed_cont; auto. simpl.
+  eexists. exists Δ. split; [reflexivity|]. apply eff_typed_cont; auto. simpl.
   apply (self_typed s (rs ∖ {[ident pay]})); [exact Hs|].
   apply (tsubst _ _ _ _ _ _ _ _ A'); [apply Hbd | eapply chan_ty_is_chan; eauto | exact Hsh | set_solver | exact Hk].
 Qed.
@@ -454,13 +727,14 @@ Lemma act_New s rs x body k A :
   act_view Δ (P (FNew x body k)) (action_of Async D (P (FNew x body k))).
 Proof.
   intros Hs Hbx Hbody Hk.
-  compute_action. apply AV_internal. intros self Hfresh. simpl in Hfresh.
+  compute_action. apply AV_internal. intros self Hfree.
+  assert (Hfresh : Δ !! (self ++ [nx]) = None) by (apply Hfree; simpl; lia).
   unfold internal_effect, fresh_chan. simpl.
   set (c := self ++ [nx]). set (cn := mkName (ident x) false (pol x) (nty x) (Some c)).
   exists (Eff (Continue (set_body (Proc [n] (FNew x body k) (S nx)) (subst x cn k))) [Spawn [cn] body] (cids_of [cn]) [] []).
   exists (<[c := A]> Δ). split; [reflexivity|].
   assert (Hsub : Δ ⊆ <[c := A]> Δ) by (apply insert_subseteq; exact Hfresh).
-  eexists. simpl. split; [reflexivity|]. split; auto.
+  unfold eff_typed, eff_base. simpl. split; auto.
   split. { intros k' Hk'. destruct (decide (c = k')) as [<-|Hne]; [right; set_solver|]. rewrite lookup_insert_ne in Hk' by auto. auto. }
   split. { intros k' Hk'. apply elem_of_list_singleton in Hk'. subst k'. exists nx. split; auto; simpl; lia. }
   split; [simpl; lia|]. split.
@@ -480,7 +754,7 @@ Proof.
   intros Hs Hc Hw. apply prov_closed in Hc. destruct Hc as [Hc1 Hc2].
   compute_action. apply AV_send; [|left; split; [apply own_k0|reflexivity]]. exists T0. split; auto. simpl.
   pose proof (teq_head D teq Hteq s T0 _ (teq_s _ _ Hs) Hw) as [v [Hv Hrel]].
-  destruct v; simpl in Hrel; try contradiction. eauto.
+  destruct v; simpl in Hrel; try contradiction. eexists. split; [exact Hv|]. split; reflexivity.
 Qed.
 
 Lemma act_Wait s rs c k T md :
@@ -491,15 +765,16 @@ Proof.
   destruct (client_closed _ _ _ Hc) as [Hc1 [c' [t [Hc2 [Hc3 Hc4]]]]].
   compute_action. apply AV_recv; [eauto | eexists; split; [eassumption|right; split; [in_body|eapply pol_from_head; eauto; reflexivity]] | ].
   msg_cases Hc3 Hc4 Hw.
-  eexists. split; [reflexivity|]. apply eff_typed_cont; auto. simpl. eapply self_typed; eauto.
+  { exfalso. eapply pol_unique; [eapply pol_from_head; eauto; reflexivity | exact Hm]. }
+  eexists. exists Δ. split; [reflexivity|]. apply eff_typed_cont; auto. simpl. eapply self_typed; eauto.
 Qed.
 
-Lemma act_Fwd s rs to from t0 :
+Lemma act_Fwd s rs to from d :
   teq T0 s -> prov_name None rs to -> client_ty Δ ∅ None from s ->
-  nty from = Some t0 -> is_name t0 = false -> teq t0 s ->
-  act_view Δ (P (FFwd to from false)) (action_of Async D (P (FFwd to from false))).
+  act_view Δ (P (FFwd to from d)) (action_of Async D (P (FFwd to from d))).
 Proof.
-  intros Hs Hto Hfrom Hnt Hnn Ht0. pose proof Hto as Hto'. apply prov_closed in Hto. destruct Hto as [Hto1 Hto2].
+  intros Hs Hto Hfrom. pose proof Hto as Hto'. apply prov_closed in Hto. destruct Hto as [Hto1 Hto2].
+  destruct (client_ann _ _ _ _ _ Hfrom) as [t0 [Hnt [Hnn Ht0]]].
   destruct (client_closed _ _ _ Hfrom) as [Hf1 [c [t [Hf2 [Hf3 Hf4]]]]].
   assert (Hfp : fwd_polarity D from = polarity_of t0).
   { unfold fwd_polarity. rewrite Hnt. destruct t0; try reflexivity. discriminate. }
@@ -507,41 +782,73 @@ Proof.
   assert (HX : teq t t0) by (eapply teq_t; [exact Hf4|apply teq_s; exact Ht0]).
   unfold action_of. simpl. rewrite Hto1. simpl. rewrite Hfp.
   destruct (polarity_of t0) as [[| |]|w|w] eqn:Epol; try (destruct t0; discriminate).
-  - (* positive: relay *) rewrite Hf2. apply AV_recv; [eauto | exists t; split; [exact Hf3|right; split; [in_body|eapply pol_from_head; [exact HX|exact Hw0|exact Epol]]] | ].
-    intros self m [Tk' [HTk' Hm]]. rewrite Hf3 in HTk'. injection HTk' as <-.
-    unfold on_message; simpl.
-    destruct (m_rule m) eqn:Er; simpl; break;
-      try match goal with
-          | Hp : pol_of_ty D t Neg |- _ =>
-            let v := fresh "v" in let Hv := fresh "Hv" in let Hpol := fresh "Hpol" in
-            destruct Hp as [v [Hv Hpol]];
-            pose proof (head_of _ _ _ _ HX Hv Hw0) as Hrel;
-            apply head_rel_pol in Hrel; rewrite Hpol, Epol in Hrel; discriminate
-          end;
-      match goal with
-      | Hv : RtTyping.whd D t ?v |- _ =>
-        pose proof (head_of _ _ _ _ HX Hv Hw0) as Hrel;
-        pose proof (head_rel_pol _ _ _ Hrel) as Hpol; rewrite Epol in Hpol; simpl in Hpol; try discriminate;
-        pose proof (teq_head D teq Hteq t s _ Hf4 Hv) as [u [Hu Hrel2]];
-        destruct u; simpl in Hrel2; try contradiction
-      end.
-    + (* RSND *) destruct Hrel2 as [Ha Hb].
-      eexists. split; [reflexivity|]. apply eff_typed_cont; auto. simpl. eapply self_typed; eauto.
-      eapply T_SendP; eauto; eapply client_ty_conv; eauto.
-    + (* RCLS *) eexists. split; [reflexivity|]. apply eff_typed_cont; auto. simpl. eapply self_typed; eauto.
-      eapply T_Close; eauto.
-    + (* RCST *) eexists. split; [reflexivity|]. apply eff_typed_cont; auto. simpl. eapply self_typed; eauto.
-      eapply T_CastP; eauto; eapply client_ty_conv; eauto.
-    + (* RSEL *)
-      match goal with Hf : find_br (m_label m) _ = Some _ |- _ =>
-        destruct (brs_rel_find _ _ _ _ _ Hrel2 Hf) as [A' [HA' Hteq']] end.
-      eexists. split; [reflexivity|]. apply eff_typed_cont; auto. simpl. eapply self_typed; eauto.
-      eapply T_SelP; eauto; eapply client_ty_conv; eauto.
-  - (* negative: FWD request *) rewrite Hf2. apply AV_send; [|right; split; [in_body|reflexivity]]. exists t. split; auto. simpl.
-    split.
-    + pose proof (teq_head D teq Hteq t0 t t0 (teq_s _ _ HX) Hw0) as [v [Hv Hrel]].
-      exists v. split; auto. apply head_rel_pol in Hrel. congruence.
-    + exists n. split; auto. apply self_prov. eapply teq_t; [exact Hs|apply teq_s; exact Hf4].
+  - (* positive: relay, or drop what arrives *) rewrite Hf2.
+    assert (Hpos : pol_of_ty D t Pos) by (eapply pol_from_head; [exact HX|exact Hw0|exact Epol]).
+    apply AV_recv; [eauto | exists t; split; [exact Hf3|right; split; [in_body|exact Hpos]] | ].
+    intros self m Hfree Hmsg.
+    assert (Hrule : is_pos_rule (m_rule m) = true).
+    { destruct (msg_pol _ _ _ Hmsg) as [T' [HT' Hp']]. rewrite Hf3 in HT'. injection HT' as <-.
+      destruct (is_pos_rule (m_rule m)); auto. exfalso. eapply pol_unique; eauto. }
+    destruct d.
+    + (* droppable *)
+      unfold on_message. simpl.
+      replace (rule_eqb (m_rule m) RFWD && false) with false by (destruct (rule_eqb _ _); reflexivity).
+      replace (rule_eqb (m_rule m) RGC && false) with false by (destruct (rule_eqb _ _); reflexivity).
+      fold (payload m).
+      destruct (droppable_fwds_typed self (payload m) Δ (P (FFwd to from true)))
+        as [Δ' [ss [cs [p' [E [Hsub [Hdom [Hnew [Hlen [Hn [Hpv [Hbd Hsp]]]]]]]]]]]]; auto.
+      { eapply payload_clients; eauto. }
+      rewrite E. exists (Eff Finish ss cs [] []), Δ'. split; auto.
+      unfold eff_typed, eff_base. simpl. split; auto. split; auto.
+      split. { intros k Hk. destruct (Hnew k Hk) as [j [Hj1 Hj2]]. exists j. split; auto. simpl in Hj2. lia. }
+      split; auto.
+    + (* relay *)
+      destruct Hmsg as [Tk' [HTk' Hm]]. rewrite Hf3 in HTk'. injection HTk' as <-.
+      unfold on_message; simpl.
+      destruct (m_rule m) eqn:Er; simpl in *; try discriminate; break;
+        match goal with
+        | Hv : RtTyping.whd D t ?v |- _ =>
+          pose proof (teq_head D teq Hteq t s _ Hf4 Hv) as [u [Hu Hrel2]];
+          destruct u; simpl in Hrel2; try contradiction
+        end.
+      * (* RSND *) destruct Hrel2 as [Ha Hb].
+        eexists. exists Δ. split; [reflexivity|]. apply eff_typed_cont; auto. simpl. eapply self_typed; eauto.
+        eapply T_SendP; eauto; eapply client_ty_conv; eauto.
+      * (* RCLS *) eexists. exists Δ. split; [reflexivity|]. apply eff_typed_cont; auto. simpl. eapply self_typed; eauto.
+        eapply T_Close; eauto.
+      * (* RCST *) eexists. exists Δ. split; [reflexivity|]. apply eff_typed_cont; auto. simpl. eapply self_typed; eauto.
+        eapply T_CastP; eauto; eapply client_ty_conv; eauto.
+      * (* RSEL *)
+        match goal with Hf : find_br (m_label m) _ = Some _ |- _ =>
+          destruct (brs_rel_find _ _ _ _ _ Hrel2 Hf) as [A' [HA' Hteq']] end.
+        eexists. exists Δ. split; [reflexivity|]. apply eff_typed_cont; auto. simpl. eapply self_typed; eauto.
+        eapply T_SelP; eauto; eapply client_ty_conv; eauto.
+  - (* negative: FWD request, or GC request *) rewrite Hf2.
+    assert (Hneg : pol_of_ty D t Neg) by (eapply pol_from_head; [exact HX|exact Hw0|exact Epol]).
+    apply AV_send; [|right; split; [in_body|destruct d; reflexivity]]. exists t. split; auto.
+    destruct d; simpl; [exact Hneg|].
+    split; [exact Hneg|].
+    exists n. split; auto. apply self_prov. eapply teq_t; [exact Hs|apply teq_s; exact Hf4].
+Qed.
+
+Lemma act_Drop s rs c k T :
+  teq T0 s -> client_ty Δ ∅ None c T -> typed Δ ∅ None rs s k ->
+  act_view Δ (P (FDrop c k)) (action_of Async D (P (FDrop c k))).
+Proof.
+  intros Hs Hc Hk.
+  destruct (client_closed _ _ _ Hc) as [Hc1 [c' [t [Hc2 [Hc3 Hc4]]]]].
+  compute_action. apply AV_internal. intros self Hfree.
+  destruct (droppable_fwds_typed self [c] Δ (P (FDrop c k)))
+    as [Δ' [ss [cs [p' [E [Hsub [Hdom [Hnew [Hlen [Hn [Hpv [Hbd Hsp]]]]]]]]]]]]; auto.
+  { intros x [<-|[]]. exists T. exact Hc. }
+  simpl in E. unfold droppable_fwd, fresh_chan in E. simpl in E. injection E as <- <- <-.
+  unfold internal_effect. simpl. unfold droppable_fwd, fresh_chan. simpl.
+  eexists. exists Δ'. split; [reflexivity|].
+  unfold eff_typed, eff_base. simpl. split; auto. split; auto.
+  split. { intros k' Hk'. apply elem_of_list_singleton in Hk'. subst k'. exists nx. split; auto. lia. }
+  split; [lia|]. split; auto.
+  exists n, s, rs. split; auto. split; [eapply prov_ty_weaken; eauto; apply self_prov; auto|].
+  simpl. eapply typed_weaken; eauto.
 Qed.
 
 Lemma act_Call s rs fn args pt :
@@ -563,7 +870,7 @@ Proof.
   compute_action. apply AV_send; [|left; split; [apply own_k0|reflexivity]]. exists T0. split; auto. simpl.
   pose proof (teq_head D teq Hteq s T0 _ (teq_s _ _ Hs) Hw) as [v [Hv Hrel]].
   destruct v; simpl in Hrel; try contradiction.
-  do 3 eexists. split; [exact Hv|]. eapply client_ty_conv; eauto.
+  do 3 eexists. split; [exact Hv|]. split; [eapply client_ty_conv; eauto|reflexivity].
 Qed.
 
 Lemma act_CastC s rs to cont T fm tm A :
@@ -588,13 +895,14 @@ Proof.
   intros Hs Hfrom Hw Hbx Hk Hty. apply prov_closed in Hfrom. destruct Hfrom as [Hf1 Hf2].
   compute_action. apply AV_recv; [eauto | exists T0; split; [exact HT0|left; split; [apply own_k0|eapply pol_from_head; eauto; reflexivity]] | ].
   msg_cases HT0 Hs Hw.
+  - (* RGC *) eapply gc_own; eauto.
   - (* RSHF *)
-    eexists. split; [reflexivity|]. apply eff_typed_cont; auto. simpl.
+    eexists. exists Δ. split; [reflexivity|]. apply eff_typed_cont; auto. simpl.
     match goal with Hp : RtTyping.prov_ty _ _ (m_c1 m) _ |- _ =>
       destruct (prov_ty_conv _ _ _ _ Hp Hrel) as [c1 [t1 [Hc1 [Ht1 Hq1]]]] end.
     exists (m_c1 m), A, (rs ∖ {[ident x]} ∪ {[""]}). split; auto. split; [exists c1, t1; auto|]. simpl.
     apply tshadow; [apply Hbx | apply lookup_empty | exact Hk].
-  - (* RFWD *) eexists. split; [reflexivity|]. eapply fwd_request_ok; eauto.
+  - (* RFWD *) eexists. exists Δ. split; [reflexivity|]. eapply fwd_request_ok; eauto.
 Qed.
 
 Lemma act_ShiftC s rs x from k T fm tm A :
@@ -606,7 +914,8 @@ Proof.
   destruct (client_closed _ _ _ Hfrom) as [Hf1 [c [t [Hf2 [Hf3 Hf4]]]]].
   compute_action. apply AV_recv; [eauto | eexists; split; [eassumption|right; split; [in_body|eapply pol_from_head; eauto; reflexivity]] | ].
   msg_cases Hf3 Hf4 Hw.
-  eexists. split; [reflexivity|]. apply eff_typed_cont; auto. simpl.
+  { exfalso. eapply pol_unique; [eapply pol_from_head; eauto; reflexivity | exact Hm]. }
+  eexists. exists Δ. split; [reflexivity|]. apply eff_typed_cont; auto. simpl.
   apply (self_typed s (rs ∖ {[ident x]})); [exact Hs|].
   apply (tsubst _ _ _ _ _ _ _ _ A); [apply Hbx | eapply chan_ty_is_chan; eauto | discriminate | set_solver | exact Hk].
 Qed.
@@ -639,6 +948,7 @@ Proof.
   - eapply act_Close; eauto.
   - eapply act_Wait; eauto.
   - eapply act_Fwd; eauto.
+  - eapply act_Drop; eauto.
   - eapply act_Call; eauto.
   - eapply act_CastP; eauto.
   - eapply act_CastC; eauto.
@@ -666,6 +976,9 @@ Lemma typed_action_md md Δ p : is_np md = false -> proc_typed Δ p -> act_view 
 Proof. intros H Hp. rewrite action_of_polarized by auto. apply typed_action; auto. Qed.
 
 (* one step of one process: the possible outcomes under typing *)
+Lemma ns_fresh_free Δ c self p : ns_fresh Δ c -> procs c !! self = Some p -> ns_free Δ self p.
+Proof. intros Hf Ep j Hj. apply (Hf self p j [] Ep Hj). Qed.
+
 Lemma step_run_typed md Δ c self :
   is_np md = false -> cfg_typed Δ c -> closed_unused md c ->
   step md D F c (Run self) = SNotEnabled \/
@@ -674,22 +987,22 @@ Proof.
   intros Hnp Hc Hcl. pose proof Hc as [Hp Hm Hd Hf]. simpl.
   destruct (procs c !! self) as [p|] eqn:Ep; [|left; reflexivity].
   pose proof (typed_action_md md Δ p Hnp (Hp _ _ Ep)) as Hv.
+  pose proof (ns_fresh_free Δ c self p Hf Ep) as Hfree.
   remember (action_of md D p) as a eqn:Ea. symmetry in Ea.
   destruct Hv as [k m Hmsg Hside|k Hk Hside Hrecv|Hint].
   2: { (* receive *)
     destruct (Hd k Hk) as [st Hst]. rewrite Hst.
     destruct (ch_buf st) as [m|] eqn:Eb.
-    + destruct (Hrecv self m (Hm _ _ _ Hst Eb)) as [e [He Heff]].
-      right. rewrite He. simpl. exists (apply_effect (put_msg c k st None) self p e), Δ. split; auto.
-      split; [reflexivity|].
+    + destruct (Hrecv self m Hfree (Hm _ _ _ Hst Eb)) as [e [Δ' [He Heff]]].
+      right. rewrite He. simpl. exists (apply_effect (put_msg c k st None) self p e), Δ'. split; auto.
+      split; [destruct Heff as [Hsub _]; exact Hsub|].
       eapply apply_effect_typed; eauto. eapply put_none_typed; eauto.
     + rewrite (Hcl self p k st Ep (or_introl Ea) Hst). left. reflexivity. }
   2: { (* internal *)
-    destruct (Hint self) as [e [Δ' [He Heff]]].
-    { apply (Hf self p (pr_next p) [] Ep). lia. }
+    destruct (Hint self Hfree) as [e [Δ' [He Heff]]].
     right. rewrite internal_effect_polarized by auto. rewrite He. simpl.
     exists (apply_effect c self p e), Δ'. split; auto.
-    split; [destruct Heff as [p' [_ [Hsub _]]]; exact Hsub|].
+    split; [destruct Heff as [Hsub _]; exact Hsub|].
     eapply apply_effect_typed; eauto. }
   - (* send *)
     destruct Hmsg as [T [HT Hmsg']].
@@ -705,7 +1018,7 @@ Qed.
 Lemma step_rendezvous_typed md Δ c s r :
   is_np md = false -> cfg_typed Δ c ->
   step md D F c (Rendezvous s r) = SNotEnabled \/
-  exists c', step md D F c (Rendezvous s r) = SStep c' /\ cfg_typed Δ c'.
+  exists c' Δ', step md D F c (Rendezvous s r) = SStep c' /\ Δ ⊆ Δ' /\ cfg_typed Δ' c'.
 Proof.
   intros Hnp Hc. pose proof Hc as [Hp Hm Hd Hf].
   destruct md; [left; reflexivity| |discriminate]. simpl.
@@ -719,8 +1032,9 @@ Proof.
   destruct (bool_decide (k = k')) eqn:Ek; [|left; reflexivity]. apply bool_decide_eq_true in Ek. subst k'.
   destruct (chans c !! k) as [st|]; [|left; reflexivity].
   destruct (ch_closed st); [left; reflexivity|].
-  destruct (Hrecv r m Hmsg) as [e [He Heff]].
-  right. rewrite He. simpl. eexists. split; [reflexivity|].
+  destruct (Hrecv r m (ns_fresh_free Δ c r pr Hf Epr) Hmsg) as [e [Δ' [He Heff]]].
+  right. rewrite He. simpl. eexists. exists Δ'. split; [reflexivity|].
+  split; [destruct Heff as [Hsub _]; exact Hsub|].
   eapply apply_effect_typed; eauto.
   - apply del_proc_typed. exact Hc.
   - unfold del_proc. simpl. rewrite lookup_delete_ne by auto. exact Epr.
@@ -737,9 +1051,9 @@ Proof.
   - destruct (step_run_typed md Δ c self Hnp Hc Hcl) as [H|[c2 [Δ' [H [H1 H2]]]]]; rewrite H in Hs.
     + discriminate.
     + injection Hs as <-. eauto.
-  - destruct (step_rendezvous_typed md Δ c s r Hnp Hc) as [H|[c2 [H H2]]]; rewrite H in Hs.
+  - destruct (step_rendezvous_typed md Δ c s r Hnp Hc) as [H|[c2 [Δ' [H [H1 H2]]]]]; rewrite H in Hs.
     + discriminate.
-    + injection Hs as <-. exists Δ. split; auto.
+    + injection Hs as <-. eauto.
   - rewrite step_control_polarized in Hs by auto. discriminate.
 Qed.
 
@@ -750,7 +1064,7 @@ Theorem no_error_md md Δ c ch who e :
 Proof.
   intros Hnp Hc Hcl. destruct ch as [self|s r|f t].
   - destruct (step_run_typed md Δ c self Hnp Hc Hcl) as [H|[c2 [Δ' [H _]]]]; rewrite H; discriminate.
-  - destruct (step_rendezvous_typed md Δ c s r Hnp Hc) as [H|[c2 [H _]]]; rewrite H; discriminate.
+  - destruct (step_rendezvous_typed md Δ c s r Hnp Hc) as [H|[c2 [Δ' [H _]]]]; rewrite H; discriminate.
   - rewrite step_control_polarized by auto. discriminate.
 Qed.
 
